@@ -50,6 +50,10 @@ def scenarios(tier):
             out.append((point, 0, f, 3))
     out.append(("writer.loop", 1, 0, 3))
     out.append(("poller.send", 2, 0, 3))
+    # another process holds an exclusive flock and an exclusive record lock on the segment file (a second
+    # daemon, a lingering earlier instance, any client - the file is world-readable) while a worker dies
+    for point, nth in (("poller.loop", 1), ("poller.start", 0), ("writer.loop", 1)):
+        out.append((point, nth, 0, 4))
     # a backlog: the writer does not look at its mailbox for 18.5 s while the poller (chronyd absent) sends
     # a report every second, then the poller dies: the abort is the last of more than sixteen queued messages
     out.append(("poller.wait", 17, 0, 0, "writer.loop", 1, 18500))
@@ -93,7 +97,7 @@ def run(res, proofs_ok, proofs_why, only=None):
             bad.append({"scenario": line, "impl": raw, "why": ["run() had not returned %d ms after the worker died: the daemon lingers with part of its pipeline" % 20000]})
         elif ms > DEADLINE_MS:
             bad.append({"scenario": line, "impl": raw, "why": ["run() returned only %d ms after the worker died" % ms]})
-    if len(unreached) > len(scs) // 10:
+    if len(unreached) > len(scs) // 10 and not bad:
         raise c.CheckError("in %d of %d scenarios no worker died (hooks missing?): %s" % (len(unreached), len(scs), unreached[:3]))
     res.extra["scenarios_without_a_death"] = unreached
     res.extra["worst_ms_after_death"] = worst
